@@ -306,3 +306,57 @@ func ZZ_C10_BulkStale() {
 	check(stale1, mode < 4, ok1, e1, old1, n1, oldRef1, "")
 	check(stale2, mode == 0, ok2, e2, old2, n2, oldRef2, "")
 }
+
+func init() { vRegister("ZZ_C10_VolunteerVsLoad", ZZ_C10_VolunteerVsLoad) }
+
+// ZZ_C10_VolunteerVsLoad: a BulkGet of key 1 whose bulk loader also volunteers key 2, racing with a single Get of key 2
+// (loader outcome: value or error; both loaders are scheduling points). The BulkGet returns exactly {1: v1}; the
+// volunteered key is cached without being returned: afterwards key 2 holds the volunteered value or the value the
+// single load produced — and certainly the volunteered one when the single load failed. No in-flight record is left.
+func ZZ_C10_VolunteerVsLoad() {
+	out := vChoice("single", 2) // 0 value, 1 error
+	vScenario("single=" + []string{"value", "error"}[out])
+	c := Must(&Options[int, int]{Logger: &NoopLogger{}})
+	sloads, bloads := 0, 0
+	single := LoaderFunc[int, int](func(ctx context.Context, key int) (int, error) {
+		vAtomic(func() { sloads++ })
+		vYield()
+		if out == 1 {
+			return 0, zzErrLoad
+		}
+		return 902, nil
+	})
+	bulk := BulkLoaderFunc[int, int](func(ctx context.Context, keys []int) (map[int]int, error) {
+		vAtomic(func() { bloads++ })
+		vAssert(len(keys) == 1 && keys[0] == 1, "c10v.bulk_loader_asked_only_for_the_missing_requested_key")
+		vYield()
+		return map[int]int{1: 101, 2: 102}, nil
+	})
+	var gv int
+	var gerr error
+	var bres map[int]int
+	var berr error
+	vPar(func() { gv, gerr = c.Get(context.Background(), 2, single) },
+		func() { bres, berr = c.BulkGet(context.Background(), []int{1}, bulk) })
+	vAssert(berr == nil && len(bres) == 1 && bres[1] == 101, "c10v.bulkget_returns_exactly_the_requested_key")
+	vAssert(bloads == 1, "c10v.bulk_loader_invoked_once")
+	e1, ok1 := c.GetEntryQuietly(1)
+	vAssert(ok1 && e1.Value == 101, "c10v.requested_key_cached")
+	e2, ok2 := c.GetEntryQuietly(2)
+	vAssert(ok2, "c10v.volunteered_key_is_cached")
+	if ok2 {
+		if out == 1 || sloads == 0 {
+			vAssert(e2.Value == 102, "c10v.volunteered_value_cached_when_the_single_load_failed_or_never_ran")
+		} else {
+			vAssert(e2.Value == 102 || e2.Value == 902, "c10v.volunteered_or_loaded_value")
+		}
+	}
+	if sloads == 0 {
+		vAssert(gerr == nil && gv == 102, "c10v.get_served_from_the_volunteered_entry")
+	} else if out == 0 {
+		vAssert(gerr == nil && gv == 902, "c10v.get_returns_its_loaded_value")
+	} else {
+		vAssert(gerr == zzErrLoad, "c10v.get_returns_the_loader_error")
+	}
+	vAssert(c.cache.singleflight.getCall(1) == nil && c.cache.singleflight.getCall(2) == nil, "c10v.no_inflight_record_left")
+}
